@@ -68,3 +68,15 @@ Theorem C12_parse_print_min_ext : forall (pf : str -> option (option float)) (t 
   xwf t = true ->
   parse_tokens pf 0 (show_x t ++ [semi; eof]) = ParseOk [SExpr (x_expr t)].
 Proof. exact PrinterProofs.parse_show_min_ext. Qed.
+
+(* A postfix operator applies to the variable written before it, however that variable is
+   parenthesised: `x++`, `(x)++` and `((x))++` are the same program (the operator reaches the parser
+   as a statement of its own and used to name the token before it - `)` in `(x)++`). *)
+Theorem C12_postfix_parens :
+  let run := parse_script (fun _ => None) max_depth in
+  let want := ParseOk [SExpr (EAssign (L "x") (EInt (L "1") 1)); SExpr (EIdent (L "x"));
+                       SExpr (EPostfix (L "x") TPlusPlus)] in
+  run (L "x = 1; x++;") = want /\
+  run (L "x = 1; (x)++;") = want /\
+  run (L "x = 1; ((x))++;") = want.
+Proof. exact ParserProofs.postfix_parens. Qed.
